@@ -41,8 +41,19 @@ type c13Case struct {
 	S      string            // appended string
 }
 
+// asciiLower folds ASCII letters only (strings.ToLower also maps U+212A KELVIN SIGN to 'k').
+func asciiLower(s string) string {
+	b := []byte(s)
+	for i, c := range b {
+		if c >= 'A' && c <= 'Z' {
+			b[i] = c + 0x20
+		}
+	}
+	return string(b)
+}
+
 func c13SafePrefix(s string) bool {
-	l := strings.ToLower(s)
+	l := asciiLower(s)
 	if strings.HasPrefix(l, "about:blank#") {
 		return true
 	}
@@ -117,9 +128,23 @@ func c13HasDotDot(s string) bool {
 	return false
 }
 
-// static is all the programmer-written text; if that itself spells "..", the climb is the author's.
+// c13HasDotDotSegment: one of the path segments of the text is a ".." ('.' or %2e twice, nothing else).
+func c13HasDotDotSegment(s string) bool {
+	if i := strings.IndexAny(s, "?#"); i >= 0 {
+		s = s[:i]
+	}
+	for _, seg := range strings.FieldsFunc(s, func(r rune) bool { return r == '/' || r == '\\' }) {
+		if l := strings.Replace(asciiLower(seg), "%2e", ".", -1); l == ".." {
+			return true
+		}
+	}
+	return false
+}
+
+// static is all the programmer-written text (the format without its markers); if one of its path segments is a
+// ".." the climb is the author's. A ".." inside a longer segment (/v1..2/) is no such licence.
 func c13ContainedStatic(static, prefix, result string) (bool, string) {
-	if c13HasDotDot(static) {
+	if c13HasDotDotSegment(static) {
 		return true, ""
 	}
 	if strings.ContainsAny(prefix, "?#") || strings.HasPrefix(strings.ToLower(prefix), "about:") {
@@ -186,7 +211,8 @@ func c13Judge(c c13Case) (string, string, string) {
 				last = m.end
 			}
 			fx.WriteString(c.Format[last:])
-			a, g := rfc3986.Split(fx.String()), rfc3986.Split(res)
+			// browsers treat '\\' like '/' in the scheme-relative and path-absolute forms
+			a, g := rfc3986.Split(strings.Replace(fx.String(), "\\", "/", -1)), rfc3986.Split(strings.Replace(res, "\\", "/", -1))
 			if a.Scheme != g.Scheme || a.Authority != g.Authority || a.HasQuery != g.HasQuery || a.HasFragment != g.HasFragment ||
 				strings.Count(a.Path, "/") != strings.Count(g.Path, "/") {
 				what := "segments"
@@ -320,8 +346,9 @@ func checkC13(r *core.Run) {
 		}
 	}
 	prefixes := []string{"https://x.com/a/b/", "HTTPS://X.COM/", "//x.com/p/", "/a/", "/p", "about:blank#", "https://[::1]:8/d/",
-		"http://x.com/", "https://x.com", "https://x.com\\", "https:///x/", "//", "/\\x/", "//@x/", "x.com/", "", "javascript://x.com/", "https://x_y/", "https:/x/", "/", "ABOUT:BLANK#"}
-	body := []string{"a", "/", ".", "%{x}", "%{y}", "%{", "}", "?", "#", "%2e", "%2E"}
+		"http://x.com/", "https://x.com", "https://x.com\\", "https:///x/", "//", "/\\x/", "//@x/", "x.com/", "", "javascript://x.com/", "https://x_y/", "https:/x/", "/", "ABOUT:BLANK#",
+		"/x..y/", "https://x.com/v1..2/", "http\u017f://x.com/", "//x\u212a.com/", "about:blan\u212a#", "HTTP\u017f://x.com/a/"}
+	body := []string{"a", "/", ".", "%{x}", "%{y}", "%{", "}", "?", "#", "%2e", "%2E", "\\"}
 	argv := []string{"", ".", "..", "/", "\\", "?", "#", "%", "%2e", "%2E%2e", ":", "@", "é", "\x00", " ", "a/b", ".a", "a.", "a", "&=", "%2f"}
 	bl := 3
 	if r.Thorough() {
@@ -435,7 +462,8 @@ func checkC13(r *core.Run) {
 	r.Set("layer_long", fmt.Sprintf("5 padding units x 9 cores x every padding length 0..300 x 3 placements x 5 operations: %d", nl*5))
 	// Append
 	bases := []string{"https://x.com/a/b/", "https://x.com/a/b", "https://x.com/a/b/.", "https://x.com/a/%2e", "//x.com/", "/a/", "/a", "about:blank#", "https://x.com/a?q=", "https://x.com/a#f",
-		"http://x.com/", "x.com/", "javascript:", "", "/", "//", "/\\x", "https:///x", "/a/b/..", "https://x.com/a/b/c.", "/a/./"}
+		"http://x.com/", "x.com/", "javascript:", "", "/", "//", "/\\x", "https:///x", "/a/b/..", "https://x.com/a/b/c.", "/a/./",
+		"/v1..2/lib/", "/v1..2/lib/.", "https://x.com/a..b/", "http\u017f://x.com/", "//x\u212a.com/", "/a/?q=..", "/a/#.."}
 	var nap int64
 	for _, base := range bases {
 		base := base
@@ -450,7 +478,7 @@ func checkC13(r *core.Run) {
 	}
 	r.Set("layer_append", fmt.Sprintf("%d bases x (%d values + all byte strings length<=2): %d", len(bases), len(argv), nap))
 	// WithParams
-	pbases := []string{"https://x.com/a", "https://x.com/a?", "https://x.com/a?b=c", "https://x.com/a?b=c&", "https://x.com/a#f", "https://x.com/a?b=c#f", "https://x.com/a#f?g=h", "/a?#", "about:blank#x", "", "https://x.com/a?b#c#d?e"}
+	pbases := []string{"https://x.com/a", "https://x.com/a?", "https://x.com/a?b=c", "https://x.com/a?b=c&", "https://x.com/a#f", "https://x.com/a?b=c#f", "https://x.com/a#f?g=h", "/a?#", "about:blank#x", "", "https://x.com/a?b#c#d?e", "/p#a?", "about:blank#?", "https://x.com/app.js#/settings?tab=1"}
 	kv := []string{"", "a", "b", "&", "=", "#", "?", "%26", "é", " ", "a=b&c", "/", "\x00"}
 	var npa int64
 	core.ParallelFor(len(pbases), func(bi int) {
